@@ -5,6 +5,7 @@ import (
 	"context"
 	"errors"
 	"fmt"
+	"os"
 	"reflect"
 	"runtime"
 	"strings"
@@ -16,6 +17,7 @@ import (
 	"github.com/hujm2023/go-sms-protocol/codec"
 	"github.com/hujm2023/go-sms-protocol/datacoding"
 	"github.com/hujm2023/go-sms-protocol/datacoding/gsm7encoding"
+	"github.com/hujm2023/go-sms-protocol/logger"
 	"github.com/hujm2023/go-sms-protocol/smgp"
 	"github.com/hujm2023/go-sms-protocol/smgp/smgp30"
 	"github.com/hujm2023/go-sms-protocol/smpp"
@@ -452,11 +454,81 @@ func genHistory(c *core.Chooser, prop string, tid int, maxOps int) []hop {
 			o.smpp = c.Bool()
 			o.text = genSMSText(c, famGSM7U, 20+c.Intn(300), nil2run)
 			o.ref = byte(tid)    // unique per in-flight Build: keeps adopted workers distinguishable
-			o.coding = c.Intn(3) // 0 a fresh builder; 1, 2: the task's own builder value, used again and again
+			o.coding = c.Intn(5) // 0 a fresh builder; 1, 2: the task's own builder value, used again and again; 3, 4: the logging paths
 		}
 		ops = append(ops, o)
 	}
 	return ops
+}
+
+// logCapture receives what the library's default logger writes during a run. Every line must carry the level of the
+// call that produced it: the fallback notice is an Info line, the failure an Error line - also when many goroutines log.
+type logCapture struct {
+	mu    sync.Mutex
+	lines []string
+}
+
+func (l *logCapture) Write(p []byte) (int, error) {
+	l.mu.Lock()
+	l.lines = append(l.lines, string(p))
+	l.mu.Unlock()
+	return len(p), nil
+}
+
+func (l *logCapture) bad() string {
+	l.mu.Lock()
+	defer l.mu.Unlock()
+	for _, ln := range l.lines {
+		switch {
+		case strings.Contains(ln, "use ucs2 as default"):
+			if !strings.Contains(ln, "[Info]") {
+				return ln
+			}
+		case strings.Contains(ln, "all dataCoding failed"):
+			if !strings.Contains(ln, "[Error]") {
+				return ln
+			}
+		}
+	}
+	return ""
+}
+
+func captureLog() (*logCapture, func()) {
+	lc := &logCapture{}
+	logger.SetOutput(lc)
+	return lc, func() { logger.SetOutput(os.Stderr) }
+}
+
+// twinSplits makes two tasks begin with split requests that are different but easy to confuse: the reference of one
+// followed by its text reads like the reference of the other followed by ITS text (23 + "T…" / 2 + "3T…"), or they
+// differ in the reference only, or in the last character only. Whatever a library keys on its arguments (a cache, a
+// coalescing group) must keep such requests apart while both are in flight.
+func twinSplits(c *core.Chooser, hists [][]hop) {
+	a, b := 0, 1+c.Intn(len(hists)-1)
+	smpp := c.Bool()
+	coding := 8
+	fam := famUCS2
+	if c.Bool() {
+		coding = 0
+		fam = famGSM7U
+		if !smpp {
+			fam = famASCII
+		}
+	}
+	t := genSMSText(c, fam, 200+c.Intn(300), nil2run)
+	x, y := 1+c.Intn(9), c.Intn(10)
+	oa := hop{kind: 3, smpp: smpp, coding: coding, text: t, ref: byte(10*x + y)}
+	ob := oa
+	switch c.Intn(3) {
+	case 0:
+		ob.ref, ob.text = byte(x), string(rune('0'+y))+t
+	case 1:
+		ob.ref = oa.ref + 1
+	default:
+		ob.text = t[:len(t)-1] + "z"
+	}
+	hists[a] = append([]hop{oa}, hists[a]...)
+	hists[b] = append([]hop{ob}, hists[b]...)
 }
 
 // nil2run is a throw-away run for generator probes outside a run context.
@@ -805,6 +877,27 @@ func execOp(r *core.Run, t *taskState, o hop) (live any, label string, panicked 
 			} else {
 				dcs = []datacoding.ProtocolDataCoding{datacoding.CMPP_CODING_ASCII, datacoding.CMPP_CODING_UCS2, datacoding.CMPP_CODING_GBK}
 			}
+			if o.coding >= 3 {
+				// the two paths on which Build writes a log line: no candidate can encode and UCS-2 was not offered
+				// (an Info line, then the UCS-2 fallback), and a protocol without a fallback (Info line, Error line)
+				if o.coding == 4 {
+					pr = protocol.SGIP
+				} else if o.smpp {
+					dcs = []datacoding.ProtocolDataCoding{datacoding.SMPP_CODING_GSM7_UNPACKED, datacoding.SMPP_CODING_Latin1}
+				} else {
+					dcs = []datacoding.ProtocolDataCoding{datacoding.CMPP_CODING_ASCII}
+				}
+				parts, coding, err := protocol.NewBatchDataCodingEncoder().Protocol(pr).Content("\u4f60\u597d "+o.text, o.ref).DataCodings(dcs).Build(ctx)
+				if err != nil {
+					live = "build error"
+					return
+				}
+				out := make([][]byte, 0, len(parts)+1)
+				out = append(out, []byte(coding.String()))
+				out = append(out, parts...)
+				live = out
+				return
+			}
 			b := protocol.NewBatchDataCodingEncoder()
 			if o.coding > 0 {
 				if t.builder == nil {
@@ -895,8 +988,16 @@ func runHistories(r *core.Run, prop string) {
 	disc := simnet.Discipline(c.Intn(3))
 	poison := c.Bool()
 	var tasks []*taskState
+	hists := make([][]hop, nTasks)
+	for i := range hists {
+		hists[i] = genHistory(c, prop, i, maxOps)
+	}
+	if prop == "C13" && nTasks >= 2 && c.Prob(1, 3) {
+		twinSplits(c, hists)
+		r.Probe("twin_requests_in_flight")
+	}
 	for i := 0; i < nTasks; i++ {
-		t := newTaskState(r, i, genHistory(c, prop, i, maxOps), disc)
+		t := newTaskState(r, i, hists[i], disc)
 		if c.Prob(1, 3) {
 			t.setBlocked(disc)
 			r.Probe("blocking_reader_task")
@@ -926,6 +1027,13 @@ func runHistories(r *core.Run, prop string) {
 	}
 
 	// ---- the simulated pass
+	lc, restoreLog := captureLog()
+	defer restoreLog()
+	defer func() {
+		if ln := lc.bad(); ln != "" {
+			r.Fail(prop, "log-line", "logger", "level", "a log line carries the level of another call: %q", strings.TrimSpace(ln))
+		}
+	}()
 	s := core.NewSched(r)
 	s.SwitchP = [2]int{1, 1 + c.Intn(4)}
 	defer installSched(s)()
@@ -1042,6 +1150,16 @@ func RaceWorkload(seed uint64, idx uint64, cold bool) (mismatch string, tasks, o
 		trs = append(trs, tr)
 		ts = append(ts, newTaskState(tr, i, genHistory(c, "C13", i, 14), simnet.Compact))
 	}
+	if c.Prob(1, 3) {
+		hs := make([][]hop, len(ts))
+		for i, t := range ts {
+			hs[i] = t.ops
+		}
+		twinSplits(c, hs)
+		for i := range ts {
+			ts[i] = newTaskState(trs[i], i, hs[i], simnet.Compact)
+		}
+	}
 	reference := func() string {
 		for _, t := range ts {
 			ref := newTaskState(nil2run, t.id, t.ops, simnet.Compact)
@@ -1078,6 +1196,8 @@ func RaceWorkload(seed uint64, idx uint64, cold bool) (mismatch string, tasks, o
 		}
 	}
 	defer func() { verifhook.YieldFn = nil }()
+	lc, restoreLog := captureLog()
+	defer restoreLog()
 	var wg sync.WaitGroup
 	var mu sync.Mutex
 	start := make(chan struct{})
@@ -1113,6 +1233,9 @@ func RaceWorkload(seed uint64, idx uint64, cold bool) (mismatch string, tasks, o
 	wg.Wait()
 	if mismatch != "" {
 		return mismatch, nTasks, ops
+	}
+	if ln := lc.bad(); ln != "" {
+		return "a log line carries the level of another call: " + strings.TrimSpace(ln), nTasks, ops
 	}
 	if cold {
 		if m := reference(); m != "" {
